@@ -370,7 +370,7 @@ def run(ctx):
     ctx.coq_file(os.path.join(C.COQ, "props", "C19.v"))
     bad = C.hygiene()
     ctx.obligation("hygiene: no Admitted/Axiom/Parameter/... in coq/", not bad, "; ".join(bad))
-    dsfs.paths_translator(ctx)
+    dsfs.partnames_translator(ctx)
     chk = dsfs.coqchk_start(C.COQ, "C19") if not ctx.quick() else None
     C.use_shadow()
     C.pqref()
